@@ -12,15 +12,12 @@ def native_canon(trees):
     cs = []
     for a, t, r in zip(asts, texts, res):
         if 'ok' not in r: diffs.append(f'canonisation of {t!r} failed: {r}'); cs.append(None); continue
-        exp, emap = TL.oracle_canon(a)
-        want = ''.join(chr(c) for c in R.render(exp)); cs.append(r['ok']['canon'])
-        if r['ok']['canon'] != want: diffs.append(f"canonical form of {t!r} is {r['ok']['canon']!r}, first-introduction-order naming gives {want!r}")
-        ren = dict(r['ok']['renaming'])
-        fv = TL.free_vars_ast(a)
-        for v in fv:
-            name = ''.join(chr(c) for c in v)
-            if ren.get(name) != ''.join(chr(c) for c in emap[v]): diffs.append(f"renaming of free variable {name} in {t!r} is {ren.get(name)!r}, its occurrences are named {''.join(chr(c) for c in emap[v])!r}")
-        if len({ren.get(''.join(chr(c) for c in v)) for v in fv}) != len(fv): diffs.append(f'renaming {ren} of {t!r} is not injective on the free variables')
+        cs.append(r['ok']['canon'])
+        from ..mirsym.interp import PathCtx, RString
+        I = TL.interp(); ctx = PathCtx(); I.ctx = ctx
+        ren = {tuple(map(ord, k)): tuple(map(ord, v)) for k, v in r['ok']['renaming']}
+        why, _ = TL.canon_consistent(I, ctx, a, [ord(c) for c in t], RString([ord(c) for c in r['ok']['canon']]), ren)
+        if why: diffs.append(f"{t!r} -> {r['ok']['canon']!r} with renaming {dict(r['ok']['renaming'])}: {why}")
         r2 = front.native([{'op': 'text', 'what': 'canon', 'text': r['ok']['canon']}])[0]
         if r2.get('ok', {}).get('canon') != r['ok']['canon']: diffs.append(f"canonising the canonical form {r['ok']['canon']!r} gives {r2.get('ok', {}).get('canon')!r}")
     if len(asts) == 2 and None not in cs:
@@ -63,7 +60,7 @@ def run(chk):
                        'duplicates': 'mark_duplicates_canonized_multiple on lists of 1 (quick: 2 from a subset; thorough: all pairs) trees, three global iteration-order policies for HashSet / BinaryHeap ties',
                        'outside': 'formula shapes beyond the family'})
     chk.assumptions.append('native replay of canonisation counterexamples goes through the feature-gated hook evaluation::verif_hooks (re-export only)')
-    run_scen(chk, 'c09_canon', {}, 'get_canonical_and_renaming: exact canonical form, renaming of free variables, idempotence, same form <=> alpha-equivalent (all pairs of sub-formulas)', native_canon, 'canon')
+    run_scen(chk, 'c09_canon', {}, 'get_canonical_and_renaming: text outside names unchanged, consistent and injective naming, renaming of free variables, idempotence, same form <=> alpha-equivalent (all pairs of sub-formulas)', native_canon, 'canon')
     if thorough: run_scen(chk, 'c09_canon', {'pair': 1}, 'the same across the sub-formulas of two trees', native_canon, 'canon')
     run_scen(chk, 'c09_dups', {'k': 1}, 'mark_duplicates on one tree: counter m implies >= m+1 occurrences up to renaming with identical free-variable domains', native_dups, 'dups')
     run_scen(chk, 'c09_dups', {'k': 2, 'second': None if thorough else [2, 5, 6, 10]}, 'mark_duplicates on two trees', native_dups, 'dups')
